@@ -1,6 +1,7 @@
 package main
 
 import (
+	"bytes"
 	"context"
 	"errors"
 	"fmt"
@@ -31,6 +32,20 @@ func (purePort) exec(f []string) []string {
 			bufs = net.Buffers{p[:k], p[k:]}
 		}
 		return []string{"enc " + hexs(mqtt.VerifEncodeValue(bufs, atou64(f[2])))}
+	case "enc2": // enc2 <packet1> <seq1> <packet2> <seq2>: the first value, as handed to Save, must stay what it was while a second one is encoded
+		join := func(v net.Buffers) []byte {
+			var out []byte
+			for _, b := range v {
+				out = append(out, b...)
+			}
+			return out
+		}
+		v1 := mqtt.VerifEncodeValueRaw(net.Buffers{unhex(f[1])}, atou64(f[2]))
+		before := join(v1)
+		v2 := mqtt.VerifEncodeValueRaw(net.Buffers{unhex(f[3])}, atou64(f[4]))
+		second := join(v2)
+		after := join(v1)
+		return []string{fmt.Sprintf("enc2 %s %s stable=%v", hexs(before), hexs(second), bytes.Equal(before, after))}
 	case "dec": // dec <value-hex>
 		p, seq, err := mqtt.VerifDecodeValue(unhex(f[1]))
 		if err != nil {
